@@ -11,7 +11,7 @@ From PV Require Import Model.Robust Model.RobustWire Proofs.RobustWireProofs Gen
 Import ListNotations.
 Local Open Scope string_scope.
 
-Definition use_modelled (u : sink_use) : bool := match u with UseSink _ => true | UseOther _ => false end.
+Definition use_modelled (u : sink_use) : bool := match u with UseSink _ | UseHeaders => true | UseOther _ => false end.
 
 Theorem bridge_body_sinks_modelled_C19 : forallb (fun e => use_modelled (snd e)) gen_body_sinks = true.
 Proof. vm_compute. reflexivity. Qed.
@@ -36,6 +36,16 @@ Theorem bridge_shot_sinks_present_C19 :
   has_use "components/guns/http_scenario/gun.go" "ScenarioGun.shootStep" SinkDiscard = true.
 Proof. vm_compute. repeat split. Qed.
 Print Assumptions bridge_shot_sinks_present_C19.
+
+(* the dial path (connect gun: the CONNECT exchange inside the transport's dial function) runs with no deadline beyond the
+   TCP connect, so it must not consume a body - how long that takes would be up to the tunnel endpoint: a rejected
+   CONNECT is reported from its status line and headers only *)
+Definition is_headers_only (u : sink_use) : bool := match u with UseHeaders => true | _ => false end.
+Theorem bridge_dial_path_reads_no_body_C19 :
+  forallb (fun e => match e with (_, g, u) => negb (String.eqb g "newConnectDialFunc") || is_headers_only u end) gen_body_sinks = true /\
+  existsb (fun e => match e with (_, g, _) => String.eqb g "newConnectDialFunc" end) gen_body_sinks = true.
+Proof. vm_compute. split; reflexivity. Qed.
+Print Assumptions bridge_dial_path_reads_no_body_C19.
 
 (* every place that consumes a body, for every wire: what it asks the runtime for is bounded by what arrived, and with
    that much memory the read neither panics nor kills the process *)
